@@ -66,3 +66,11 @@ def same_entries(new, old, skip):
     """frame condition on a table: every entry except index `skip` keeps its None-ness"""
     return len(new) == len(old) and all((new[i] is None) == (old[i] is None)
                                         for i in range(len(new)) if i != skip)
+
+
+_call_args = {}
+
+
+def call_arg(contract, name):
+    """argument passed at the last call of a stubbed callee (native replay)"""
+    return _call_args[contract][name]
